@@ -237,6 +237,22 @@ PROPS["C08"] = {
 }
 
 
+PROPS["C09"] = {
+    "level": "exploration",
+    "budget_s": {"quick": 70, "thorough": 2400},
+    "modes": [{"name": "", "runs": {"quick": 5000, "thorough": 150000}, "chunk": 250}],
+    "rule": ("one run = a rewrite-free store (random edges, chains with shortcuts so that one subject set is reachable at two depths, cycles, wide nodes, one > 100 children case per 200 runs), a subject set, global depth g in {1,2,3,4,5,8,50}, request depth in {-2,0,1,2,3,4,5,7,100}, "
+             "engine-side page size 1-3 or default; 6 (quick) / 24 (thorough) executions on different storage orders (which path reaches a node first). Oracles: every parent->child edge is a stored relationship; a subject set is expanded at most once; levels <= effective depth; termination; "
+             "every subject within (effective depth - 1) hops is in the tree and nothing unreachable is; with depth not binding the subject-id leaves equal the subjects for which the reference AND the real check engine say allowed, and REST / gRPC expand equal the engine tree. "
+             "This is the thinnest simulation target of the claimed set: one randomness source (storage order), no faults, no concurrency. non-trivial = some subject is >= 2 hops away; distinct = hash of (tuples, set, depths)."),
+    "probes": ["probe_depth_binding", "probe_depth_not_binding", "probe_tree_depends_on_storage_order", "probe_over_100_children"],
+    "probe_min_runs": 4000,
+    "real": ["keto internal/expand.Engine (sequential), internal/x/graph visited set, expand REST/gRPC handlers, Mapper.ToTree, internal/persistence/sql GetRelationTuples paging, SQLite"], "stub": STUB_E,
+    "fault_kinds": {},
+    "assumptions": ["'within the effective depth' is read as: a subject k hops away must appear when k <= effective depth - 1 (the tree has at most 'effective depth' levels)"],
+}
+
+
 def evidence(prop, spec, tier, seed, records, deaths, unfinished, planned, wall_s, sim_wall_s, build_s, nworkers, n_new, known_hits):
     runs = 0
     execs = 0
@@ -323,6 +339,9 @@ def evidence(prop, spec, tier, seed, records, deaths, unfinished, planned, wall_
 
 SIM = "deterministic simulation with fault injection"
 MANIFEST_TEXT = {
+ "C09": {"text": "seeded stores and depths with the storage order (shard ids) varied per execution; tree soundness, expand-once, depth, completeness against a reachability reference, agreement with check and with the REST/gRPC transports",
+         "note": "narrow simulation target: the expand engine is sequential, the only nondeterminism is the storage order and paging; no faults",
+         "technique": SIM + " (storage-order search only): seeded uuid seam + paging knob, reachability reference model"},
  "C08": {"text": "seeded (config, store, tuple) cases compared across the engine, four REST check variants, gRPC Check and REST/gRPC batch entries at tape-chosen positions among bad entries; plus BatchCheck inside the scheduler bubble with tape-chosen worker finishing orders",
          "note": "limits non-binding so that a decision is one value; HTTP/gRPC wire framing not exercised",
          "technique": SIM + ": differential transports over generated states, seeded scheduling of batch workers at the storage seam"},
